@@ -405,9 +405,11 @@ def check_C15(ctx):
         keep = [s for s in scen if '/cancel/' in s['id'] or '/many/' in s['id'] or '/http/' in s['id']]
         rest = [s for s in scen if not ('/cancel/' in s['id'] or '/many/' in s['id'] or '/http/' in s['id'])]
         scen = keep + rest[ctx.seed % 5::5]
+    # the real public-IP fetcher without connectivity, two lookups in a row on one fetcher (real clock, ~20 s): each one comes back
+    scen.append({'id': 'C15/pubfetch/2', 'label': 'publicip/real_fetcher/two_failing_lookups', 'kind': 'pubfetch', 'extra': {'calls': 2}})
     wire_family(ctx, 'C15', scen, RUN_RULE % 'C15All (protocol x query counts x failing subsets x completion orders x public-IP on/off/failing)' +
                 '; non-trivial = at least one injected failure fired or more than one query ran',
-                nontrivial=lambda s, es: any(e['event'] == 'Fault' for e in es) or s['run']['queries'] + s['run']['e2e'] > 1)
+                nontrivial=lambda s, es: any(e['event'] == 'Fault' for e in es) or 'run' not in s or s['run']['queries'] + s['run']['e2e'] > 1)
     vt.write_evidence(ctx, 'model_checking', ctx_rule(ctx), exhaustive=not ctx.quick())
 
 def check_C19(ctx):
